@@ -23,8 +23,8 @@ type RelCase struct {
 	S     []int    `json:"s"`
 	A     []Res    `json:"a"`
 	B     []Res    `json:"b"`
-	Str   []Res    `json:"str"` // as shipped through the STRING entry point (FindStringMatchStartingAt at the rune's byte offset)
-	MS    int      `json:"ms"`  // MatchString: 1 true, 0 false, -1 error
+	Str   []Res    `json:"str"`   // as shipped through the STRING entry point (FindStringMatchStartingAt at the rune's byte offset)
+	MS    int      `json:"ms"`    // MatchString: 1 true, 0 false, -1 error
 	Skips [][4]int `json:"skips"` // [scan start, from, to, found]
 }
 
